@@ -10,9 +10,14 @@ Line protocol of the C17 model driver.
   pysim <params> <innov> <meanArg> <iniArg>                wrapper model at Float; `none` = argument left at its default
   pyres <params> <inputs> <nanmean> <meanArg> <iniArg>     `nanmean` = numpy.nanmean(inputs) (external)
   simq / resq  <params> <mean> <ini> <series>              kernel model at Rat (exact), tokens `p/q`, `nan`
+  pyresd  <params> <inputs> <meanArg> <iniArg>             wrapper model with the data mean computed in the model
+  pyresdq <params> <inputs> <meanArg> <iniArg>             the same at Rat
+  nanmean <xs> / nanmeanq <xs>                             the model's data mean (`nan` when no value is present)
 
 Float tokens are 16 hex digits or `nan`; replies are `ok [..]` or `err <kind>`.
 -/
+
+instance : NatCast Float := ⟨Nat.toFloat⟩
 
 def errName : Err → String
   | .badOrder => "badOrder" | .nanParam => "nanParam" | .nanMean => "nanMean" | .nanIni => "nanIni"
@@ -38,6 +43,20 @@ def parseRatOptList? (s : String) : Option (List (Option Rat)) := HydroVerif.all
 
 def handle (toks : List String) : String :=
   match toks with
+  | ["pyresd", ps, xs, m, i] =>
+    -- armodel_residual with the data mean computed in the model (sequential sum)
+    match parseFloatList? ps, parseFloatList? xs, argTok? m, argTok? i with
+    | some ps, some xs, some meanArg, some iniArg =>
+      fmtF (pyResidualD Float.isNaN (ps.map optF) (xs.map optF) meanArg iniArg)
+    | _, _, _, _ => "bad-op"
+  | ["pyresdq", ps, xs, m, i] =>
+    -- exact instance; meanArg / iniArg: `none` | `nan` | p/q
+    let arg (s : String) : Option (Option (Option Rat)) :=
+      if s = "none" then some none else (ratOptTok? s).map some
+    match parseRatOptList? ps, parseRatOptList? xs, arg m, arg i with
+    | some ps, some xs, some meanArg, some iniArg =>
+      fmtQ (pyResidualD (fun _ => false) ps xs meanArg iniArg)
+    | _, _, _, _ => "bad-op"
   | [op, ps, m, i, xs] =>
     if op = "sim" || op = "res" then
       match parseFloatList? ps, floatTok? m, floatTok? i, parseFloatList? xs with
@@ -65,6 +84,16 @@ def handle (toks : List String) : String :=
     | some ps, some xs, some nm, some meanArg, some iniArg =>
       fmtF (pyResidual Float.isNaN (ps.map optF) (xs.map optF) (optF nm) meanArg iniArg)
     | _, _, _, _, _ => "bad-op"
+  | ["nanmean", xs] =>
+    match parseFloatList? xs with
+    | some xs => fmtOptFloat (dataMean Float.isNaN (xs.map optF))
+    | none => "bad-op"
+  | ["nanmeanq", xs] =>
+    match parseRatOptList? xs with
+    | some xs => match dataMean (fun _ => false) xs with
+      | some v => fmtRat v
+      | none => "nan"
+    | none => "bad-op"
   | _ => "bad-op"
 
 def main : IO Unit := serve handle
